@@ -865,6 +865,58 @@ namespace
         const Objects::ClosestPointOnCurve c = it->second->closest_point_on_curve_segment(Point<2>(D(f[3]), D(f[4]), CS(f[2])));
         return H(c.distance) + " " + H(c.parametric_fraction) + " " + H(c.interpolation_fraction) + " " + std::to_string(c.index) + " " + H(c.point[0]) + " " + H(c.point[1]);
       }
+    if (op == "bez_brute2")
+      {
+        // bez_brute2 id sys x y nsamples nsegments
+        need(7);
+        auto it = st.beziers.find(I(f[1]));
+        if (it == st.beziers.end()) throw std::string("no such bezier");
+        const Objects::BezierCurve &curve = *it->second;
+        const CoordinateSystem cs = CS(f[2]);
+        const double qx = D(f[3]), qy = D(f[4]);
+        const unsigned long ns = U(f[5]);
+        const unsigned long nseg = U(f[6]);
+        auto metric = [&](const size_t i, const double t) -> double
+        {
+          const Point<2> p = curve(i, t);
+          if (cs == CoordinateSystem::cartesian)
+            return std::sqrt((p[0]-qx)*(p[0]-qx) + (p[1]-qy)*(p[1]-qy));
+          const double sl = std::sin(0.5*(p[1]-qy));
+          const double so = std::sin(0.5*(p[0]-qx));
+          const double h = sl*sl + std::cos(p[1])*std::cos(qy)*so*so;
+          return 2.0*std::asin(std::min(1.0, std::sqrt(h)));
+        };
+        double best = std::numeric_limits<double>::infinity();
+        size_t best_i = 0;
+        double best_t = 0;
+        for (size_t i = 0; i < nseg; ++i)
+          {
+            double seg_best = std::numeric_limits<double>::infinity();
+            unsigned long seg_k = 0;
+            for (unsigned long k = 0; k <= ns; ++k)
+              {
+                const double d = metric(i, static_cast<double>(k)/static_cast<double>(ns));
+                if (d < seg_best) { seg_best = d; seg_k = k; }
+              }
+            double lo = std::max(0.0, (static_cast<double>(seg_k)-1.0)/static_cast<double>(ns));
+            double hi = std::min(1.0, (static_cast<double>(seg_k)+1.0)/static_cast<double>(ns));
+            const double gr = 0.6180339887498949;
+            double c = hi - gr*(hi-lo), d = lo + gr*(hi-lo);
+            double fc = metric(i, c), fd = metric(i, d);
+            for (int iter = 0; iter < 80; ++iter)
+              {
+                if (fc < fd) { hi = d; d = c; fd = fc; c = hi - gr*(hi-lo); fc = metric(i, c); }
+                else { lo = c; c = d; fc = fd; d = lo + gr*(hi-lo); fd = metric(i, d); }
+              }
+            const double t = 0.5*(lo+hi);
+            const double dt = metric(i, t);
+            double cand = std::min(seg_best, dt);
+            double cand_t = dt <= seg_best ? t : static_cast<double>(seg_k)/static_cast<double>(ns);
+            if (cand < best) { best = cand; best_i = i; best_t = cand_t; }
+          }
+        const Point<2> bp = curve(best_i, best_t);
+        return H(best) + " " + std::to_string(best_i) + " " + H(best_t) + " " + H(bp[0]) + " " + H(bp[1]);
+      }
     if (op == "s2c")
       {
         need(4);
